@@ -276,6 +276,10 @@ func verifSymbolicConstraints(ncpu int, mode int) (allowed, reserved, isolated c
 		reserved = verifNondetCPUSet("reserved", ncpu)
 		verifAssume(!reserved.IsEmpty())
 		return all, reserved, cpuset.New()
+	case 3: // CPU 0 reserved, symbolic kernel-isolated set
+		isolated = verifNondetCPUSet("isolated", ncpu)
+		verifAssume(isolated.Intersection(cpuset.New(0)).IsEmpty())
+		return all, cpuset.New(0), isolated
 	default: // everything symbolic
 		allowed = verifNondetCPUSet("allowed", ncpu)
 		reserved = verifNondetCPUSet("reserved", ncpu)
@@ -294,8 +298,8 @@ var verifQoS = []v1.PodQOSClass{v1.PodQOSGuaranteed, v1.PodQOSBurstable, v1.PodQ
 func (w *verifWorld) newContainer(maxMilli int64) *verifContainer {
 	k := len(w.ctrs)
 	id := "c" + string(rune('0'+k))
-	pod := &verifPod{name: "p" + id, namespace: verifNamespaces[verifChoice("namespace", len(verifNamespaces))],
-		qos: verifQoS[verifChoice("qos", len(verifQoS))], annotations: map[string]string{}}
+	pod := &verifPod{name: "p" + id, namespace: verifNamespaces[verifChoice("namespace", verifParam("namespaces", len(verifNamespaces)))],
+		qos: verifQoS[verifChoice("qos", verifParam("qosClasses", len(verifQoS)))], annotations: map[string]string{}}
 	m := verifNondetInt64("mcpu")
 	verifAssume(verifAnd(m >= 0, m <= maxMilli))
 	if pod.qos == v1.PodQOSBestEffort {
